@@ -24,6 +24,13 @@
  *   20..26 three adjacent two-word areas, every non-empty subset of them
  *          holding registers, the others entry-less
  *   33..38 (thorough) the same with two registers in the second / third area
+ *   40,41  tables at the TOP OF THE ADDRESS SPACE (last word 0xffffffff, the
+ *          last area and its last register end at 2^32): table 0 moved up;
+ *          a callback-backed RW area followed by a read-only memory area
+ *          whose u32 register occupies the last two words.  Block-write
+ *          windows: every (address, length) from one below the first area up
+ *          to 0xffffffff with address + length <= 2^32 (nothing wraps); the
+ *          reference forms every exclusive end in 64 bits.  Part 2 for both.
  *
  * Ownership: which typed sets and block writes are accepted, and that a block
  * write marks the overlapped registers, are sentences of C01 / C02.  Where the
@@ -40,14 +47,15 @@
 #define MAXVALS 12
 
 /* table ids; the id is also the partition number / case-number base */
-static const int QUICK_IDS[] = { 0, 1, 2, 3, 4, 5, 6, 7, 8, 12, 13, 14, 15, 16, 17, 20, 21, 22, 23, 24, 25, 26 };
-static const int THOROUGH_IDS[] = { 0, 1, 2, 3, 4, 5, 6, 7, 8, 9, 10, 11, 12, 13, 14, 15, 16, 17, 20, 21, 22, 23, 24, 25, 26, 37, 36, 34, 33, 35, 38 };
+static const int QUICK_IDS[] = { 0, 1, 2, 3, 4, 5, 6, 7, 8, 12, 13, 14, 15, 16, 17, 20, 21, 22, 23, 24, 25, 26, 40, 41 };
+static const int THOROUGH_IDS[] = { 0, 1, 2, 3, 4, 5, 6, 7, 8, 9, 10, 11, 12, 13, 14, 15, 16, 17, 20, 21, 22, 23, 24, 25, 26, 40, 41, 37, 36, 34, 33, 35, 38 };
 #define CORRUPTION_BASE 64
 
 static struct tab tb;
 static struct tspec spec;
 static RegisterAtom g_init_image[RT_MAXW];
 static bool g_has_fail;
+static bool g_top; /* the table's last word is 0xffffffff */
 static bool g_sanitise_unspec; /* what sanitise does to this table is not fixed by the statement (always-fail registers; registers in write-only areas) */
 static unsigned g_corrupt_areas; /* mask of the areas part 2 corrupts */
 static uint16_t g_init_flags;
@@ -272,6 +280,25 @@ make_table(int ti, struct tspec *s)
         }
         break;
     }
+    case 40: /* table 0 at the top of the address space: LE, memory, last word 0xffffffff: u16 range, u32 min, f32 range (ends at 2^32) */
+        s->be = false;
+        s->a[0] = (struct aspec){ 0xfffffffbu, 5, REG_AF_RW, false, false };
+        s->nr = 3;
+        s->r[0] = mkr(REG_TYPE_UINT16, 0xfffffffbu, K_RANGE, 0x0100, 0x7f00, 0x0100);
+        s->r[1] = mkr(REG_TYPE_UINT32, 0xfffffffcu, K_MIN, 0x00010002, 0, 0x7fff0000);
+        s->r[2] = mkr(REG_TYPE_FLOAT32, 0xfffffffeu, K_RANGE, fb(-2.5f), fb(1000.25f), fb(1.0f));
+        break;
+    case 41: /* BE, callback-backed RW area + read-only memory area that ends at 2^32: u32 range, u16 callback | u16 range, u32 max (last two words) */
+        s->be = true;
+        s->na = 2;
+        s->a[0] = (struct aspec){ 0xfffffffau, 3, REG_AF_RW, true, false };
+        s->a[1] = (struct aspec){ 0xfffffffdu, 3, REG_AF_READABLE, false, false };
+        s->nr = 4;
+        s->r[0] = mkr(REG_TYPE_UINT32, 0xfffffffau, K_RANGE, 0x00010002, 0x7ffe8001, 0x00010002);
+        s->r[1] = mkr(REG_TYPE_UINT16, 0xfffffffcu, K_CB, 0, 0, 4);
+        s->r[2] = mkr(REG_TYPE_UINT16, 0xfffffffdu, K_RANGE, 5, 10, 7);
+        s->r[3] = mkr(REG_TYPE_UINT32, 0xfffffffeu, K_MAX, 0, 0x7ffe8001, 0x00010002);
+        break;
     default: /* BE, callback-backed: u64 range alone */
         s->be = true;
         s->a[0] = (struct aspec){ 8, 4, REG_AF_RW, true, false };
@@ -417,7 +444,7 @@ set_reg_words(RegisterAtom *words, int r, uint64_t bits)
     ref_image(spec.r[r].type, bits, spec.be, img);
     size_t k = 0;
     for (int i = 0; i < spec.na; ++i) {
-        if (spec.r[r].addr >= spec.a[i].base && spec.r[r].addr < spec.a[i].base + spec.a[i].size)
+        if (spec.r[r].addr >= spec.a[i].base && spec.r[r].addr - spec.a[i].base < spec.a[i].size) /* area-relative: base + size may be 2^32 */
             memcpy(&words[k + (spec.r[r].addr - spec.a[i].base)], img, ref_words(spec.r[r].type) * 2);
         k += spec.a[i].size;
     }
@@ -450,6 +477,27 @@ constraint_violation(void)
             return r;
     }
     return -1;
+}
+
+/* outcome classes of the tables at the top of the address space (ids 40, 41) */
+static const char *
+top_class(const char *o)
+{
+    static const char *const MAP[][2] = {
+        { "set-accepted", "top-set-accepted" }, { "set-refused", "top-set-refused" },
+        { "bitop-accepted", "top-bitop-accepted" }, { "bitop-refused-constraint", "top-bitop-refused-constraint" },
+        { "bitop-refused-operand", "top-bitop-refused-operand" },
+        { "block-accepted", "top-block-accepted" }, { "block-refused", "top-block-refused" },
+        { "sanitise-clean", "top-sanitise-clean" }, { "sanitise-unspecified", "top-sanitise-unspecified" },
+        { "fault-injected", "top-fault-injected" }, { "fault-not-reached", "top-fault-not-reached" },
+        { "sanitise-fault-reached", "top-sanitise-fault-reached" }, { "sanitise-fault-not-reached", "top-sanitise-fault-not-reached" },
+        { "sanitise-unwritable-corrupted", "top-sanitise-unwritable-corrupted" }, { "sanitise-nothing-to-reset", "top-sanitise-nothing-to-reset" },
+        { "sanitise-all-reset", "top-sanitise-all-reset" }, { "sanitise-mixed", "top-sanitise-mixed" },
+    };
+    for (size_t i = 0; i < sizeof MAP / sizeof MAP[0]; ++i)
+        if (!strcmp(o, MAP[i][0]))
+            return MAP[i][1];
+    return o; /* failed, ?, and the classes do_op already names for these tables */
 }
 
 /* ---- operations -------------------------------------------------------------- */
@@ -514,21 +562,25 @@ make_ops(void)
             push_op((struct op){ (enum opk)k, r, wt, 1, 0, 0, 0 });
         }
     }
-    /* block writes: every window from one below the first area to one above the last */
-    const uint32_t lo = spec.a[0].base ? spec.a[0].base - 1 : 0;
-    const uint32_t hi = spec.a[spec.na - 1].base + spec.a[spec.na - 1].size; /* one above */
-    for (uint32_t a = lo; a <= hi; ++a)
-        for (uint32_t n = 1; a + n <= hi + 1; ++n) {
+    /* block writes: every window from one below the first area to one above
+     * the last -- a table that ends at 2^32 has no word above it: up to
+     * 0xffffffff then.  Sums in 64 bits; no window extends beyond 0xffffffff
+     * (a + n <= 2^32). */
+    const uint64_t lo = spec.a[0].base ? spec.a[0].base - 1 : 0;
+    const uint64_t above = (uint64_t)spec.a[spec.na - 1].base + spec.a[spec.na - 1].size; /* one above the last word */
+    const uint64_t hi = above < 0x100000000ull ? above : 0xffffffffull; /* last address a window may cover */
+    for (uint64_t a = lo; a <= hi; ++a)
+        for (uint64_t n = 1; a + n <= hi + 1; ++n) {
             /* patterns: per overlapped register x each of its values; and "parallel" patterns */
             for (int r = 0; r < spec.nr; ++r) {
                 const uint32_t rw = ref_words(spec.r[r].type);
-                if (spec.r[r].addr + rw <= a || a + n <= spec.r[r].addr)
+                if ((uint64_t)spec.r[r].addr + rw <= a || a + n <= spec.r[r].addr)
                     continue;
                 for (int i = 0; i < nV[r]; ++i)
-                    push_op((struct op){ O_BLOCK, r, spec.r[r].type, V[r][i], a, n, 0 });
+                    push_op((struct op){ O_BLOCK, r, spec.r[r].type, V[r][i], (uint32_t)a, (uint32_t)n, 0 });
             }
             for (int i = 0; i < 5; ++i)
-                push_op((struct op){ O_BLOCK, -1, REG_TYPE_INVALID, 0, a, n, 1 + i });
+                push_op((struct op){ O_BLOCK, -1, REG_TYPE_INVALID, 0, (uint32_t)a, (uint32_t)n, 1 + i });
         }
     push_op((struct op){ O_SANITISE, 0, REG_TYPE_INVALID, 0, 0, 0, 0 });
     /* environment deviations on callback-backed areas: one operation during
@@ -567,9 +619,9 @@ op_str(const struct op *o)
     case O_BITCLR: snprintf(b, sizeof b, "bit_clear(reg%d,%s:%016llx)", o->reg, TYPE_NAME[o->vtype], (unsigned long long)o->bits); break;
     case O_BLOCK:
         if (o->pat == 0)
-            snprintf(b, sizeof b, "block_write(%u,%u,current+reg%d<-%016llx)", o->addr, o->n, o->reg, (unsigned long long)o->bits);
+            snprintf(b, sizeof b, "block_write(%s,%u,current+reg%d<-%016llx)", addr_str(o->addr), o->n, o->reg, (unsigned long long)o->bits);
         else
-            snprintf(b, sizeof b, "block_write(%u,%u,every-register<-value#%d)", o->addr, o->n, o->pat - 1);
+            snprintf(b, sizeof b, "block_write(%s,%u,every-register<-value#%d)", addr_str(o->addr), o->n, o->pat - 1);
         break;
     case O_SANITISE: snprintf(b, sizeof b, "sanitise"); break;
     case O_FAULT:
@@ -658,11 +710,12 @@ do_op(const struct op *o, bool *ok)
     }
     case O_BLOCK: {
         RegisterAtom w[RT_MAXW];
+        const uint64_t wend = (uint64_t)o->addr + o->n; /* exclusive end of the request, <= 2^32 */
         for (uint32_t i = 0; i < o->n; ++i)
             w[i] = flat_area_of(&spec, o->addr + i) >= 0 ? flat_word(&tb, o->addr + i) : 0xdead;
         for (int r = 0; r < spec.nr; ++r) {
             const uint32_t rw = ref_words(spec.r[r].type);
-            if (spec.r[r].addr + rw <= o->addr || o->addr + o->n <= spec.r[r].addr)
+            if ((uint64_t)spec.r[r].addr + rw <= o->addr || wend <= spec.r[r].addr)
                 continue;
             uint64_t bits;
             if (o->pat == 0) {
@@ -675,8 +728,8 @@ do_op(const struct op *o, bool *ok)
             unsigned char img[8];
             ref_image(spec.r[r].type, bits, spec.be, img);
             for (uint32_t k = 0; k < rw; ++k) {
-                const uint32_t a = spec.r[r].addr + k;
-                if (a >= o->addr && a < o->addr + o->n)
+                const uint32_t a = spec.r[r].addr + k; /* a word of the register: <= 0xffffffff */
+                if (a >= o->addr && a < wend)
                     memcpy(&w[a - o->addr], img + 2 * k, 2);
             }
         }
@@ -690,19 +743,23 @@ do_op(const struct op *o, bool *ok)
         /* which block writes are accepted, and that they mark the overlapped
          * registers, are C02's sentences; see O_SET */
         if (a.code != REG_ACCESS_SUCCESS) {
-            outcome = accept ? "block-refused-admissible" : "block-refused";
+            outcome = accept ? "block-refused-admissible"
+                : !g_top ? "block-refused"
+                : (v.readonly >= 0 && v.unmapped < 0) ? (wend == 0x100000000ull ? "top-block-refused-readonly-to-last-word" : "top-block-refused-readonly")
+                : "top-block-refused";
             cmp = CMP_REFUSED;
         } else if (accept) {
             size_t k = 0;
             for (int i = 0; i < spec.na; ++i) {
                 for (uint32_t x = 0; x < spec.a[i].size; ++x) {
                     const uint32_t ad = spec.a[i].base + x;
-                    if (ad >= o->addr && ad < o->addr + o->n)
+                    if (ad >= o->addr && ad < wend)
                         expect[k + x] = w[ad - o->addr];
                 }
                 k += spec.a[i].size;
             }
-            outcome = (touched_mask(&tb) & v.overlapped) == v.overlapped ? "block-accepted" : "block-accepted-marks-differ";
+            outcome = (touched_mask(&tb) & v.overlapped) != v.overlapped ? "block-accepted-marks-differ"
+                : !g_top ? "block-accepted" : wend == 0x100000000ull ? "top-block-accepted-to-last-word" : "top-block-accepted";
             cmp = CMP_FULL;
         } else {
             outcome = "block-accepted-inadmissible";
@@ -850,7 +907,7 @@ corruption(int ti, bool thorough)
         for (int r = 0; r < spec.nr; ++r) {
             const uint32_t rw = ref_words(spec.r[r].type);
             const uint32_t a = waddr[w];
-            if (a < spec.r[r].addr || a >= spec.r[r].addr + rw)
+            if (a < spec.r[r].addr || a - spec.r[r].addr >= rw) /* register-relative: addr + rw may be 2^32 */
                 continue;
             if (spec.r[r].ckind == K_NONE)
                 continue;
@@ -1073,10 +1130,11 @@ corruption(int ti, bool thorough)
                         if (w >= wtotal)
                             break;
                     }
-                    mc_end(true, !ok ? "failed"
+                    const char *cls = !ok ? "failed"
                            : fi > 0 ? (nhit ? "sanitise-fault-reached" : "sanitise-fault-not-reached")
                            : nunwritable ? "sanitise-unwritable-corrupted"
-                           : nreset == 0 ? "sanitise-nothing-to-reset" : nkept == 0 ? "sanitise-all-reset" : "sanitise-mixed");
+                           : nreset == 0 ? "sanitise-nothing-to-reset" : nkept == 0 ? "sanitise-all-reset" : "sanitise-mixed";
+                    mc_end(true, g_top ? top_class(cls) : cls);
                 }
     }
 }
@@ -1094,8 +1152,9 @@ setup_table(int ti)
             g_sanitise_unspec = true;
     /* part 2 corrupts the first area; tables built for it: more */
     g_corrupt_areas = 1u;
-    if (ti == 5 || ti == 6 || ti == 14 || ti == 16)
+    if (ti == 5 || ti == 6 || ti == 14 || ti == 16 || ti == 41)
         g_corrupt_areas = 3u;
+    g_top = (uint64_t)spec.a[spec.na - 1].base + spec.a[spec.na - 1].size == 0x100000000ull;
     if (ti >= 20 && ti <= 38)
         g_corrupt_areas = 7u;
     tab_build(&tb, &spec);
@@ -1132,7 +1191,7 @@ setup_table(int ti)
                 g_regword[k] = false;
                 g_word_reg[k] = -1;
                 for (int r = 0; r < spec.nr; ++r)
-                    if (spec.a[ai].base + w >= spec.r[r].addr && spec.a[ai].base + w < spec.r[r].addr + ref_words(spec.r[r].type)) {
+                    if (spec.a[ai].base + w >= spec.r[r].addr && spec.a[ai].base + w - spec.r[r].addr < ref_words(spec.r[r].type)) {
                         g_regword[k] = true;
                         g_word_reg[k] = r;
                     }
@@ -1187,7 +1246,7 @@ run_table(int ti, int part)
                 key_from_tab(&nk);
                 mc_set_add(&set, &nk, sizeof nk, cur, oi, NULL);
             }
-            mc_end(true, outcome);
+            mc_end(true, g_top ? top_class(outcome) : outcome);
         }
         if (set.n > 2000000) {
             mc_cap("state cap 2000000 hit on T%d", ti + 1);
@@ -1225,8 +1284,8 @@ main(int argc, char **argv)
         run_table(ids[i], i);
     for (int i = 0; i < ntables; ++i)
         run_corruption(ids[i], mc_thorough());
-    char bound[1200];
-    snprintf(bound, sizeof bound, "%d tables (%s); fixpoint over typed set / bit set / bit clear / block write (every window) / sanitise with boundary operands and one-fault environment operations (sanitise, typed set, block write with the k-th read or write callback failing, k < max(3, registers)) on callback-backed tables; corruption: every image over %s per word of the corrupted areas from every combination of valid contents of %s, sanitise once without fault and (callback-backed tables%s) once per single read / write fault position",
+    char bound[1500];
+    snprintf(bound, sizeof bound, "%d tables (%s; two tables at the top of the address space -- last word 0xffffffff, one with a read-only last area -- with every block-write window from one below the first area up to 0xffffffff, address+length <= 2^32, and the corruption part); fixpoint over typed set / bit set / bit clear / block write (every window) / sanitise with boundary operands and one-fault environment operations (sanitise, typed set, block write with the k-th read or write callback failing, k < max(3, registers)) on callback-backed tables; corruption: every image over %s per word of the corrupted areas from every combination of valid contents of %s, sanitise once without fault and (callback-backed tables%s) once per single read / write fault position",
              ntables,
              mc_thorough() ? "the quick ones + three with 3-4 registers over 7-10 words + six three-area tables with two registers per populated area" : "nine small ones, write-only areas, SKIP_DEFAULTS areas, an area without write callback, unconstrained f64, three adjacent areas with every subset entry-less",
              mc_thorough() ? "{keep,0000,ffff,7f80,0001,one-past-bound}" : "{keep,0000,ffff,one-past-bound}",
